@@ -49,6 +49,7 @@ type ExecResult struct {
 	WCalls  int    `json:"wcalls"`
 	WFailed bool   `json:"wfailed"`
 	Cbs     int    `json:"cbs"`
+	Alias   string `json:"alias,omitempty"` // an earlier ExecuteBytes result changed under the caller's feet
 	err     error
 	werr    error // the error the caller's writer failed with
 }
@@ -57,7 +58,7 @@ func (r *ExecResult) Failed() bool { return r.Err != "" || r.Panic != "" }
 
 // Same compares what a caller can observe.
 func (r *ExecResult) Same(o *ExecResult) bool {
-	return r.Out == o.Out && r.Err == o.Err && firstLine(r.Panic) == firstLine(o.Panic) && r.Written == o.Written
+	return r.Out == o.Out && r.Err == o.Err && firstLine(r.Panic) == firstLine(o.Panic) && r.Written == o.Written && r.Alias == o.Alias
 }
 
 func firstLine(s string) string {
@@ -68,6 +69,9 @@ func firstLine(s string) string {
 }
 
 func (r *ExecResult) String() string {
+	if r.Alias != "" {
+		return fmt.Sprintf("%s: out=%q err=%q panic=%q written=%q ALIAS=%s", r.Entry, r.Out, r.Err, firstLine(r.Panic), r.Written, r.Alias)
+	}
 	return fmt.Sprintf("%s: out=%q err=%q panic=%q written=%q", r.Entry, r.Out, r.Err, firstLine(r.Panic), r.Written)
 }
 
@@ -82,6 +86,13 @@ func (w *World) Exec(tpl *pongo2.Template, ep int, ctx pongo2.Context, blocks []
 			res.Panic = fmt.Sprintf("%v\n%s", p, pongoFrames(shortStack()))
 		}
 		res.Cbs = l.cbCount
+		// byte slices handed out by earlier ExecuteBytes calls belong to the caller
+		for i, rb := range l.retained {
+			if string(rb.b) != rb.copy {
+				res.Alias = fmt.Sprintf("result %d of ExecuteBytes was %q and now reads %q", i, clip(rb.copy, 60), clip(string(rb.b), 60))
+				break
+			}
+		}
 		if sw != nil {
 			res.Written = string(sw.Got)
 			res.WCalls = sw.Calls
@@ -96,6 +107,9 @@ func (w *World) Exec(tpl *pongo2.Template, ep int, ctx pongo2.Context, blocks []
 	case EpExecuteBytes:
 		b, err := tpl.ExecuteBytes(ctx)
 		res.Out, res.err = string(b), err
+		if len(b) > 0 && len(l.retained) < 8 {
+			l.retained = append(l.retained, retainedBytes{b: b, copy: string(b)})
+		}
 	case EpExecuteWriter:
 		sw = w.NewWriter()
 		res.err = tpl.ExecuteWriter(ctx, sw)
@@ -118,6 +132,18 @@ func (w *World) Exec(tpl *pongo2.Template, ep int, ctx pongo2.Context, blocks []
 	}
 	res.Err = errStr(res.err)
 	return res
+}
+
+type retainedBytes struct {
+	b    []byte
+	copy string
+}
+
+func clip(s string, n int) string {
+	if len(s) > n {
+		return s[:n] + "..."
+	}
+	return s
 }
 
 // pongoFrames keeps the pongo2 function names of a stack dump (for violation keys).
